@@ -129,6 +129,8 @@ func (vc *VC) uf(name string, argSorts []string, res string) {
 	vc.emit(fmt.Sprintf("(declare-fun %s (%s) %s)", name, strings.Join(argSorts, " "), res))
 }
 
+func (vc *VC) ufDeclared(name string) bool { return vc.ufs[name] }
+
 func (vc *VC) assume(pc, fact string) {
 	if fact == "true" || vc.quiet > 0 {
 		// quiet: inside a quantifier body (terms mention bound variables)
